@@ -37,7 +37,7 @@ func histHash(h *History) uint64 {
 func checkC01(c *vkit.Ctx) {
 	c.P.Rule = "case = generated history (1-6 tests from a confusable-name family, 0-14 calls each, MatchSnapshot/MatchJSON/MatchYAML mixed over 1-3 files, optional pre-existing entries, optional repeated executions, sequential or call-interleaved); recorded once then replayed twice in fresh simulated processes under a random mode; non-trivial = history carries >=1 hostile class (terminator/escape/header-like/blank/edge-newline/invalid-UTF-8/long line/>=10 ordinals/mixed APIs/pre-existing content); distinct by hash of the whole history"
 	c.P.Assumptions = []string{"VerifResetProcessState faithfully simulates a new test process (cross-checked by engine B real-process replays)", "kr/pretty and tidwall/pretty are deterministic on the generated subset (premise asserted per value)"}
-	n := c.N(1500, 40000)
+	n := c.N(5000, 150000)
 	for i := 0; i < n; i++ {
 		if !c.Mine(i) {
 			continue
